@@ -124,6 +124,19 @@ claim("C10", "other",
       "decision-table extraction from MIR + evaluation of extracted arithmetic terms on a rational grid",
       "DESIGN.md §3 C10")
 
+claim("C12", "other",
+      "Decided structurally on extracted tables and inventories: exactly-one-set effect of every path of update_node_liveness "
+      "(first time of death kept, window reset while dead), garbage_collect removal, complete writer inventory of the three "
+      "detector maps; own id never evaluated/removed and always first in live_nodes(); scheduled <=> tod + grace/2 < now and "
+      "collected <=> now >= tod + grace over all orderings of the instants; exclusion set from scheduled members at all send "
+      "sites and honoured by digest and delta; removal remembers (id, heartbeat) in the constant-capacity LRU; copies created "
+      "only for the own id, by a digest heartbeat strictly above the remembered one (or no memory), or by catch-up without "
+      "memory; deltas never create.",
+      "Beyond 500 remembered members (LRU eviction), real-time skew between survivors and multi-node schedules are not "
+      "explored. HashMap/HashSet/LruCache and Instant arithmetic assumed.",
+      "decision-table extraction from MIR (incl. closures) + ordering enumeration + writer/caller inventories + call-graph",
+      "DESIGN.md §3 C12")
+
 ALL = ["C%02d" % i for i in range(1, 21)]
 PENDING_REASON = "check under construction in this session (rules designed in DESIGN.md §3, not yet armed)"
 
